@@ -52,13 +52,15 @@ def doctrans(filename, docstring_format, type_annotations, no_word_wrap):
         doctransify_cst(cst_list, node)
 
         new_source: str = "".join(map(attrgetter("value"), cst_list))
+        with open(filename, "rb") as f:
+            original_bytes: bytes = f.read()
         try:
             with open(filename, "wt") as f:
                 f.write(new_source)
         except BaseException:
-            # Edited in place: never leave the file truncated or half-written on failure
-            with open(filename, "wt") as f:
-                f.write(original_source)
+            # Edited in place: never leave the file truncated, half-written or re-encoded on failure
+            with open(filename, "wb") as f:
+                f.write(original_bytes)
             raise
 
 
